@@ -467,6 +467,9 @@ class Ctx:
             m = mo[i] if i < len(mo) else "missing"
             r = io_[i] if i < len(io_) else "missing"
             cm, cr = (canon(m), canon(r)) if canon else (m, r)
+            # the executor reports a panic with its source location, the model only the class
+            if cr.startswith("panic:"):
+                cr = "panic"
             if cm != cr:
                 self.disagree(op_name, l, m, r)
         return mo, io_
